@@ -177,9 +177,15 @@ pub fn run(line: &str) -> Obs {
                 }
                 "pc" => o.iov.push_copy(&unhex(p[1])),
                 "ex" => {
-                    let items: Vec<&'static [u8]> = p[1].split(',').map(|h| leak(unhex(h))).collect();
-                    for d in &items {
-                        borrowed.push((d.as_ptr() as usize, d.as_ptr() as usize + d.len()));
+                    // the items are adjacent sub-slices of ONE caller buffer: caller memory is never merged, adjacent or not
+                    let parts: Vec<Vec<u8>> = p[1].split(',').map(unhex).collect();
+                    let whole: &'static [u8] = leak(parts.concat());
+                    borrowed.push((whole.as_ptr() as usize, whole.as_ptr() as usize + whole.len()));
+                    let mut items: Vec<&'static [u8]> = Vec::new();
+                    let mut at = 0;
+                    for q in &parts {
+                        items.push(&whole[at..at + q.len()]);
+                        at += q.len();
                     }
                     o.iov.extend(items.into_iter().map(std::io::IoSlice::new));
                 }
